@@ -98,16 +98,6 @@ theorem conversions_reject_nan_inf (rnd : Rat → Rat) :
 
 /-! ## exact arithmetic (`rnd = id`) -/
 
-private theorem p2d_id {p : Rat} (hp : p ≠ 0) (h0 : 0 ≤ p) (h1 : p ≤ 100) :
-    pctToDbfs id p = .ok (p * 30 / 100 + -30) := by
-  rw [pctToDbfs_of_ne roundingLaws_id hp, if_pos ⟨h0, h1⟩, mapArith_id]
-  norm_num
-
-private theorem d2p_id {d : Rat} (h0 : -30 ≤ d) (h1 : d ≤ 0) :
-    dbfsToPct id d = .ok ((d + 30) * 100 / 30) := by
-  rw [dbfsToPct_of_ge roundingLaws_id h0, if_pos h1, mapArith_id]
-  norm_num
-
 /-- percent → dBFS is strictly increasing on the whole range [0, 100] (the mute sentinel
     -144 at 0 lies below everything else) -/
 theorem pctToDbfs_strictMono {p₁ p₂ : Rat} (h0 : 0 ≤ p₁) (h12 : p₁ < p₂) (h2 : p₂ ≤ 100) :
@@ -325,40 +315,6 @@ example : (∃ u, pyMin (addF id (.fin 98) raopUpStep) (.fin raopUpBound) = .fin
 
 /-! ## whole histories: facade over RaopAudio -/
 
-/-- the stored dBFS level, if any, is one AirPlay accepts -/
-def RaopInv (s : Raop) : Prop := ∀ d, s.ctx = some d → GoodDbfs d
-
-theorem raopInv_init : RaopInv Raop.init := by intro d hd; cases hd
-
-private theorem raop_volume_good (h : RoundingLaws rnd) {s : Raop} (hs : RaopInv s) :
-    ∃ v, Raop.volume rnd s = .ok v ∧ InPct v := by
-  unfold Raop.volume
-  cases hc : s.ctx with
-  | none => exact ⟨_, rfl, raopInitialVolume, rfl, by norm_num [raopInitial_eq], by norm_num [raopInitial_eq]⟩
-  | some d => exact dbfsToPctF_good h (hs d hc)
-
-private theorem raop_setVolume_spec (h : RoundingLaws rnd) (s : Raop) {l : FVal} (hl : InPct l) :
-    ∃ d p, GoodDbfs d ∧ InPct p ∧ Raop.setVolume rnd s l = (⟨some d⟩, [.recv l, .wire d, .disp p]) := by
-  obtain ⟨d, hd, hg⟩ := pctToDbfsF_ok h hl
-  obtain ⟨p, hp, hpr⟩ := dbfsToPctF_good h hg
-  refine ⟨d, p, hg, hpr, ?_⟩
-  unfold Raop.setVolume
-  rw [hd]
-  simp only [Raop.volume, hp]
-
-private theorem raop_after_set (h : RoundingLaws rnd) (s : Raop) {l : FVal} (hl : InPct l) :
-    RaopInv (Raop.setVolume rnd s l).1 ∧ ∀ ev ∈ (Raop.setVolume rnd s l).2, GoodEv GoodDbfs ev := by
-  obtain ⟨d, p, hg, hp, he⟩ := raop_setVolume_spec h s hl
-  rw [he]
-  refine ⟨?_, ?_⟩
-  · intro d' hd'; cases hd'; exact hg
-  · intro ev hev
-    simp only [List.mem_cons, List.not_mem_nil, or_false] at hev
-    rcases hev with rfl | rfl | rfl
-    · exact hl
-    · exact hg
-    · exact hp
-
 /-- one operation keeps the invariant and emits only allowed events -/
 theorem raop_step_safe (h : RoundingLaws rnd) {s : Raop} (hs : RaopInv s) (op : Op) :
     RaopInv (Raop.step rnd s op).1 ∧ ∀ ev ∈ (Raop.step rnd s op).2, GoodEv GoodDbfs ev := by
@@ -469,18 +425,6 @@ example : (Raop.run id Raop.init [.set (.fin (100 / 3)), .read]).getLast? = some
   (set_then_read_exact _ (by norm_num) (by norm_num)).1
 
 /-! ## whole histories: facade over MrpAudio (absolute volume control) -/
-
-private theorem mrp_setVolume_good (h : RoundingLaws rnd) {l : FVal} (hl : InPct l) :
-    ∀ ev ∈ Mrp.setVolume rnd l, GoodEv InUnit ev := by
-  intro ev hev
-  simp only [Mrp.setVolume, List.mem_cons, List.not_mem_nil, or_false] at hev
-  rcases hev with rfl | rfl
-  · exact hl
-  · obtain ⟨q, rfl, h0, h1⟩ := hl
-    refine ⟨rnd (q / 100), rfl, ?_⟩
-    apply h.between h.fix0 h.fix1
-    · positivity
-    · rw [div_le_iff₀ (by norm_num)]; linarith
 
 theorem mrp_step_safe (h : RoundingLaws rnd) (s : Mrp) (op : Op) :
     ∀ ev ∈ (Mrp.step rnd s op).2, GoodEv InUnit ev := by
